@@ -4,12 +4,12 @@ The seam between the tokenizer (C14 / C01) and C03's model of the `stream` branc
 -/
 import PdfVerif.Lemmas.LexCompose
 import PdfVerif.Lemmas.FiltersScan
+import PdfVerif.Lemmas.StackParser
+import PdfVerif.Model.ObjParser
 
 namespace PdfVerif.StreamSeam
-open PdfVerif PdfVerif.Lexer PdfVerif.Gen.LexTables PdfVerif.Filters PdfVerif.Gen.Filters
+open PdfVerif PdfVerif.Lexer PdfVerif.Gen.LexTables PdfVerif.Filters PdfVerif.Gen.Filters PdfVerif.StackParser
 
-/-- the keyword `stream` -/
-def kwStream : Bytes := [115, 116, 114, 101, 97, 109]
 
 theorem kwStream_noeol : ∀ c ∈ kwStream, c ≠ 10 ∧ c ≠ 13 := by decide
 
@@ -50,7 +50,6 @@ theorem read_exact (pre kw eol0 d tail q eol rest : Bytes)
   rw [scan_delim _ tail q eol rest (by simp; omega) htail hq heol]
   simp [Nat.add_assoc]
 
-def kwEndobj : Bytes := [101, 110, 100, 111, 98, 106]
 
 /-- Restarted where the stream branch leaves the parser: `endstream endobj` + EOL + anything. -/
 theorem lex_after_stream (eol rest : Bytes) (heol : EolOk eol rest) :
@@ -69,5 +68,52 @@ theorem lex_after_stream (eol rest : Bytes) (heol : EolOk eol rest) :
   have hl : ENDSTREAM_MARK.length = 9 := by decide
   have hl2 : kwEndobj.length = 6 := by decide
   simp [shiftToks, hl, hl2, Nat.add_assoc]
+
+/-! ### the stack parser up to the `stream` keyword -/
+
+/-- PDFParser fed with the keyword `stream` (outside `ObjParser`): an error, whatever the state. -/
+theorem feed_stream_err (st : PState) : (feedWith objDialect st (Token.kwd kwStream)).error ≠ none := by
+  unfold feedWith
+  by_cases h : st.error.isSome = true
+  · simp only [h, if_true]; intro h2; simp [h2] at h
+  · have e1 : (kwStream == [91]) = false := by decide
+    have e2 : (kwStream == [93]) = false := by decide
+    have e3 : (kwStream == [60, 60]) = false := by decide
+    have e4 : (kwStream == [62, 62]) = false := by decide
+    have e5 : (kwStream == [123]) = false := by decide
+    have e6 : (kwStream == [125]) = false := by decide
+    have e7 : (kwStream == kwXref) = false := by decide
+    have e8 : (kwStream == kwStartxref) = false := by decide
+    have e9 : (kwStream == kwEndobj) = false := by decide
+    have e10 : (kwStream == kwNull) = false := by decide
+    have e11 : (kwStream == kwR) = false := by decide
+    simp [h, e1, e2, e3, e4, e5, e6, e7, e8, e9, e10, e11, objDialect, doKeywordP]
+
+/-- a token sequence that PDFParser reads without error holds no `stream` keyword -/
+theorem no_stream_of_ok : ∀ (a : List Token) (st : PState), (feedAllWith objDialect st a).error = none →
+    ∀ t ∈ a, t ≠ Token.kwd kwStream
+  | [], _, _ => by simp
+  | x :: r, st, h => by
+    intro t ht
+    rcases List.mem_cons.mp ht with rfl | hr
+    · intro hx
+      subst hx
+      have hmono : ∀ (l : List Token) (s : PState), (feedAllWith objDialect s l).error = none → s.error = none := by
+        intro l
+        induction l with
+        | nil => intro s hs; exact hs
+        | cons y l ih => intro s hs; exact (feedWith_obj_mono s y).2 (ih _ hs)
+      exact feed_stream_err st (hmono r _ h)
+    · exact no_stream_of_ok r (feedWith objDialect st x) h t hr
+
+theorem splitAtStream_append : ∀ (A : List PTok) (P : Nat) (X : List PTok), (∀ t ∈ A, t.2 ≠ Token.kwd kwStream) →
+    ObjParser.splitAtStream (A ++ (P, Token.kwd kwStream) :: X) = some (A, P)
+  | [], P, X, _ => by simp [ObjParser.splitAtStream]
+  | (p, t) :: r, P, X, h => by
+    have ht : (t == Token.kwd kwStream) = false := by
+      have := h (p, t) (by simp)
+      simpa using this
+    have ih := splitAtStream_append r P X (fun x hx => h x (by simp [hx]))
+    simp [ObjParser.splitAtStream, ht, ih]
 
 end PdfVerif.StreamSeam
